@@ -1098,6 +1098,22 @@ def c03_flags(case, outcome=None):
                 f_ = S.get_field(mm_, m['old']) if mm_ else None
                 if f_ is not None and f_['kind'] != 'ManyToMany':
                     renamed.setdefault(uids[i], []).append((m['old'], m['new']))
+        # ... likewise an indexed column that a DeleteField of the batch drops and an
+        # AddField of the same batch re-creates under the same column name
+        dropped_cols = {}
+        for i in b:
+            m = seq[i]
+            if m['kind'] == 'DeleteField':
+                mm_ = S.get_model(trail[i], m['app'], m['model'])
+                f_ = S.get_field(mm_, m['name']) if mm_ else None
+                if f_ is not None and f_['kind'] != 'ManyToMany' and \
+                        (f_['db_index'] or f_['unique'] or f_['kind'] in ('ForeignKey', 'OneToOne')):
+                    dropped_cols.setdefault(uids[i], set()).add(S.column_of(f_))
+            if m['kind'] == 'AddField' and m['field']['kind'] != 'ManyToMany' and \
+                    (m['field']['db_index'] or m['field']['unique'] or
+                     m['field']['kind'] in ('ForeignKey', 'OneToOne')) and \
+                    S.column_of(m['field']) in dropped_cols.get(uids[i], ()):
+                flag(uids[i], 'rename_stale_state')
         for i in b:
             m = seq[i]
             pairs = renamed.get(uids[i]) or []
@@ -1740,6 +1756,41 @@ def evolution_without_effect_never_recorded(case, outcome, atoms):
                 continue
         out.append(a)
     return out
+
+
+@explainer
+def dependency_on_evolution_without_effect_in_history(case, outcome, atoms):
+    """F-C12-2 along an upgrade path: an evolution without effect (see F-C04-9)
+    contributes no node to the dependency graph; another app's evolution that was
+    written after it and says so (AFTER_EVOLUTIONS) then fails the run with
+    AssertionError '"evolution:<app>:<label>" was not found'."""
+    import json
+    from . import history as H
+    from . import refmodel as R
+    h = case.get('history') or {}
+    try:
+        vers = H.versions(h)
+    except Exception:
+        return atoms
+    noop = set()
+    vi = 0
+    for s_ in h.get('steps', []):
+        vi += 1
+        if s_['type'] != 'evolve':
+            continue
+        try:
+            before = vers[vi - 1]['spec']
+            after = R.apply_all(before, s_['seq'], strict=False)
+            if json.dumps(before['apps'], sort_keys=True) == \
+                    json.dumps(after['apps'], sort_keys=True):
+                noop.add('evolution:%s:%s' % (s_['app'], s_['label']))
+        except Exception:
+            continue
+    if not noop:
+        return atoms
+    return [a for a in atoms
+            if not (a[0] == 'run_failed' and a[2] == 'AssertionError' and
+                    any(('"%s" was not found' % k) in str(a[4]) for k in noop))]
 
 
 @explainer
